@@ -14,7 +14,8 @@
      MinVotesRequired and that have a validator record one version back), the validator queue of
      EndBlock ([queue]: (address, power) of the records one version back), the outcome of the
      non-allegation part of the staking handlers ([envok], [delta]).
-   * the Go map range over the tracker is an explicit order parameter of EndBlock.
+   * the tracker loop of EndBlock takes an explicit order parameter (the Go code ranged over a map
+     until /repo commit b3db1ad; it now sorts the ids = order [], which the correspondence uses).
    * float64 quotients of the tally are modelled exactly (round-to-nearest-even to 53 bits of a
      rational), the exact rational criterion is defined beside it. *)
 From stdpp Require Import gmap list.
